@@ -48,6 +48,7 @@
 #include "taskq.h"
 #include "thread.h"
 #include "url.h"
+#include "verif.h"
 
 // transport needs to come after url
 #include "../sp/transport.h"
